@@ -126,6 +126,26 @@ def r1_reset(repo):
             not any(isinstance(n, ast.Return) for n in iter_own_nodes(vp.node))
         obs.append(Ob("C11-R1", "%s:visit_program-ends-with-reset" % lang, _w(vp), ok,
                       "visit_program must call self._reset_state() unconditionally on every path, after storing self.program"))
+        # attributes that are mutated in place must be initialised AND reset with a fresh container
+        for attr in sorted(writes):
+            if not any(k == "mutate" for f_, n_, k in writes[attr] if f_.name not in ("__init__", "_reset_state")):
+                continue
+            if attr in OUT_ATTRS:
+                continue
+            vals = [("__init__", init_vals.get(attr)), ("_reset_state", reset_vals.get(attr))]
+            bad = []
+            for where_, v in vals:
+                fresh = isinstance(v, (ast.List, ast.Dict, ast.Set, ast.Tuple)) or (
+                    isinstance(v, ast.Call) and call_name(v) in ("list", "dict", "set", "OrderedDict", "defaultdict", "deque")
+                    and all(isinstance(a, (ast.List, ast.Dict, ast.Set, ast.Tuple, ast.Constant)) for a in v.args))
+                if fresh and isinstance(v, (ast.List, ast.Set, ast.Tuple)):
+                    fresh = all(isinstance(e, ast.Constant) for e in v.elts)
+                if not fresh:
+                    bad.append("%s: `%s`" % (where_, src(v) if v is not None else None))
+            obs.append(Ob("C11-R1", "%s:fresh-container:%s" % (lang, attr), _w(reset), not bad,
+                          "`%s` is mutated in place during a translation, so __init__ and _reset_state must each install a "
+                          "fresh literal container (a shared module-level object would carry entries over to other "
+                          "translators and later translations): %s" % (attr, bad)))
         # reset itself writes only through plain assignments of literals / constants
         bad = [src(v) for a, v in reset_vals.items() if any(isinstance(x, ast.Call) for x in ast.walk(v))]
         obs.append(Ob("C11-R1", "%s:reset-values-are-constants" % lang, _w(reset), not bad,
@@ -407,12 +427,33 @@ def r4_ambient(repo):
     return obs
 
 
+def r5_translate_program(repo):
+    f = repo.fn("src.utils.translate_program")
+    t, p = f.params[:2]
+    body = [s_ for s_ in f.node.body if not (isinstance(s_, ast.Expr) and isinstance(s_.value, ast.Constant))]
+    ok = len(body) == 2 and isinstance(body[0], ast.Expr) and isinstance(body[0].value, ast.Call) and \
+        src(body[0].value) == "%s.visit(%s)" % (t, p) and isinstance(body[1], ast.Return) and \
+        src(body[1].value) == "%s.result()" % t and not f.decorators
+    obs = [Ob("C11-R5", "translate_program=visit+result", _w(f), ok,
+              "utils.translate_program must be exactly `translator.visit(program); return translator.result()` - no caching, "
+              "no state kept on the translator, no decorator (programs are mutated in place between translations)")]
+    for q in TRANSLATORS.values():
+        c = repo.cls(q)
+        r = c.lookup("result")
+        rets = [n for n in iter_own_nodes(r.node) if isinstance(n, ast.Return)]
+        ok = len(rets) == 1 and src(rets[0].value) == "self.program" and not r.decorators
+        obs.append(Ob("C11-R5", "%s.result-returns-the-last-visit's-text" % c.name, _w(r), ok,
+                      "result() must return self.program (written by the last visit_program)"))
+    return obs
+
+
 def rules():
     return [
         RuleSpec("C11-R1", "Java/Groovy: _reset_state re-initialises everything a translation writes", 26, r1_reset),
         RuleSpec("C11-R2", "Kotlin/Scala: every attribute is back to its entry value (dirty-set analysis)", 60, r2_neutral),
         RuleSpec("C11-R3", "no store in the translators' call-graph closure reaches the program", 8, r3_no_ir_writes),
         RuleSpec("C11-R4", "no ambient inputs; randomised type list never read", 12, r4_ambient),
+        RuleSpec("C11-R5", "translate_program is visit + result", 5, r5_translate_program),
     ]
 
 
@@ -487,6 +528,20 @@ def _v_time_in_text(tree):
     f.body.insert(1, V.parse_stmts("stamp = str(time.time())")[0])
 
 
+def _v_shared_set(tree):
+    tree.body.insert(len([n for n in tree.body if isinstance(n, (ast.Import, ast.ImportFrom))]),
+                     V.parse_stmts("DEFAULT_FUNCTION_INTERFACES = {0, 1, 2, 3}")[0])
+    for name in ("JavaTranslator.__init__", "JavaTranslator._reset_state"):
+        f = V.find_def(tree, name)
+        st = V.one([n for n in f.body if isinstance(n, ast.Assign) and ast.unparse(n.targets[0]) == "self._function_interfaces"])
+        st.value = V.parse_expr("DEFAULT_FUNCTION_INTERFACES")
+
+
+def _v_memo_translate(tree):
+    f = V.find_def(tree, "translate_program")
+    f.body = V.parse_stmts("key = (id(program), translator.package)\nif getattr(translator, '_last', None) == key:\n    return translator.result()\ntranslator.visit(program)\ntranslator._last = key\nreturn translator.result()")
+
+
 def _t_rename(tree):
     f = V.find_def(tree, "KotlinTranslator.visit_func_decl")
     V.rename_local(f, "prev_c", "saved_cast")
@@ -506,6 +561,8 @@ def variants():
         V.Variant("get_abstract_functions writes into shared type variables again (the repaired defect)", "src/ir/ast.py", _v_revert_abstract_fix, {"C11-R3"}),
         V.Variant("get_type_hint reads the randomised type list", "src/ir/type_utils.py", _v_type_hint_reads_types, {"C11-R4"}),
         V.Variant("kotlin: time.time() in visit_program", "src/translators/kotlin.py", _v_time_in_text, {"C11-R4"}),
+        V.Variant("java: _function_interfaces shares a module-level set", "src/translators/java.py", _v_shared_set, {"C11-R1"}),
+        V.Variant("translate_program memoises the last program", "src/utils.py", _v_memo_translate, {"C11-R5"}),
         V.Variant("twin: rename save locals in Kotlin visit_func_decl", "src/translators/kotlin.py", _t_rename, None, twin=True),
         V.Variant("twin: whole tree reformatted by ast.unparse", None, None, None, twin=True),
     ]
